@@ -309,6 +309,12 @@ pub proof fn ax_gcd_one(n: int)
     ensures igcd(1, n) == 1,
 { admit(); }
 
+/// (2^k - 1) - (2^(k-1) + 1) has fewer than 50000 significant bits for the exponent lengths in use (k < 49000)
+pub proof fn ax_bit_len_e_range(k: nat)
+    requires 2 <= k < 49000,
+    ensures bit_len((ipow(2, k) - 1) - (ipow(2, (k - 1) as nat) + 1)) < 50000,
+{ admit(); }
+
 /// gcd depends on the residue only
 pub proof fn ax_gcd_mod(a: int, n: int)
     requires n > 0,
